@@ -90,7 +90,7 @@ func main() {
 
 	// ---- library level
 	nshards := 12
-	perShard := run.N(3500, 420000) // HD derivation steps per shard (x12)
+	perShard := run.N(3500, 300000) // HD derivation steps per shard (x12)
 	seed := run.Rand("lib").U64()
 	var wg sync.WaitGroup
 	wg.Add(1)
